@@ -151,10 +151,27 @@ func (sc *metaScn) c07Check(st *metaStep) {
 	if st.Kind == "sub" && st.Code < 400 && st.Code >= 200 {
 		ra, ok := after.subs[st.actorU]
 		r.Hit("attach_requires_join")
-		if !live(ra, ok) || !ra.ModeGiven.IsJoiner() {
+		// the request may be acknowledged without attaching the session (the resulting mode lacks J): what matters is
+		// whether the topic lists the session
+		attachedNow := false
+		if a := sc.actorByUid(st.actorU); a != nil {
+			attachedNow = vfServerAttached(a.c, sc.canon)
+		}
+		if (!live(ra, ok) || !ra.ModeGiven.IsJoiner()) && attachedNow {
 			if sc.kind != "p2p" || st.Actor != "third" {
 				r.Violation("attached-without-join:"+st.Actor, fmt.Sprintf("{sub} answered %d but the subscription is missing or its grant lacks J", st.Code), sc.wit(st, nil))
 			}
+		}
+	}
+	// ... at any time: a session the topic lists belongs to a live subscription whose grant has J
+	for _, a := range sc.actors {
+		if !vfServerAttached(a.c, sc.canon) {
+			continue
+		}
+		ra, ok := after.subs[a.u.uid]
+		r.Hit("attached_sessions_have_join")
+		if !live(ra, ok) || !ra.ModeGiven.IsJoiner() {
+			r.Violation("attached-without-join:listed:"+a.role, fmt.Sprintf("after the step the topic lists a session of %s whose subscription is missing, deleted or granted no J", a.role), sc.wit(st, nil))
 		}
 	}
 	if sc.kind == "p2p" {
